@@ -140,6 +140,32 @@ KIT_GEOMETRY = {
 }
 
 
+def circ_find_pattern(s, pattern):
+    """All start positions where the IUPAC `pattern` matches the circular string s (case-insensitive)."""
+    n = len(s)
+    L = len(pattern)
+    if not L or L > n:
+        return []
+    up = s.upper()
+    sets = [IUPAC[c] for c in pattern.upper()]
+    out = []
+    for i in range(n):
+        ok = True
+        for k in range(L):
+            if up[(i + k) % n] not in sets[k]:
+                ok = False
+                break
+        if ok:
+            out.append(i)
+    return out
+
+
+def _find_site(seq, site):
+    if set(site) <= set("ACGT"):
+        return circ_find_all(seq, site)
+    return circ_find_pattern(seq, site)
+
+
 def windows(seq, g):
     """Overhang windows of every site occurrence on the circular string.
 
@@ -150,10 +176,10 @@ def windows(seq, g):
     n = len(seq)
     L = len(g.site)
     out = []
-    for p in circ_find_all(seq, g.site):
+    for p in _find_site(seq, g.site):
         out.append(((p + L + g.off) % n, +1, p))
     if g.rsite != g.site:
-        for p in circ_find_all(seq, g.rsite):
+        for p in _find_site(seq, g.rsite):
             out.append(((p - g.off - g.ov) % n, -1, p))
     out.sort(key=lambda t: (t[2], t[1]))
     return out
